@@ -279,6 +279,33 @@ Section Create.
       cbn [snd fst s_log s_conn rev app committed current begin_scope lookup set_tbl];
       rewrite ?name_eqb_refl, ?Htm, ?Hmt, ?HT0; auto.
   Qed.
+
+  (* success: the table is there under its own name with the new definition and the copied rows, and no temporary table *)
+  Definition J (c:conn) : Prop := lookup tmp (current c) = None /\ R3 (current c).
+  Lemma index_J_apply i tb tb' : apply_stmt (SCreateIndex t i) tb = Ok tb' -> lookup tmp tb = None /\ R3 tb -> lookup tmp tb' = None /\ R3 tb'.
+  Proof.
+    cbn [apply_stmt]. destruct (lookup t tb) as [T|] eqn:L; [|discriminate].
+    destruct (idx_name_used (i_name i) tb); [discriminate|].
+    destruct (i_unique i && negb (unique_ok (i_cols i) (t_rows T))); [discriminate|].
+    intros E; inversion E; subst tb'; clear E. intros [H1 [T' [H2 [H3 H4]]]]. split.
+    - cbn [lookup set_tbl]. rewrite Hmt. auto.
+    - rewrite L in H2; inversion H2; subst T'. eexists; split; [cbn [lookup set_tbl]; rewrite name_eqb_refl; reflexivity|]. cbn; auto.
+  Qed.
+  Lemma index_J kk x : J (s_conn x) -> J (s_conn (fst (run kk f (index_prog t ixs) x))).
+  Proof.
+    apply (run_inv kk f J (fun s => exists i, s = SCreateIndex t i)).
+    - intros s c [i ->] HJ. unfold J in *.
+      destruct kk; cbn [exec is_dml]; destruct (apply_stmt (SCreateIndex t i) (current c)) as [tb|e] eqn:A;
+        try (destruct (intx c)); cbn [fst committed current]; auto; apply (index_J_apply _ _ _ A HJ).
+    - apply index_prog_all. eauto.
+  Qed.
+  Lemma create_success : lookup tmp db = None -> snd xend = None -> J (s_conn (fst xend)).
+  Proof.
+    intros Hfresh. unfold xend, x0, create_prog.
+    destruct k, pre; go; try congruence; cbn [snd]; intros He; try discriminate He;
+      apply index_J; unfold J, R3; cbn [s_conn current lookup set_tbl]; rewrite ?name_eqb_refl, ?Htm, ?Hmt;
+      (split; [auto | eexists; split; [reflexivity|split; reflexivity]]).
+  Qed.
 End Create.
 
 (* ------------------------------------------------------------------ facts that need no case analysis *)
@@ -454,6 +481,16 @@ Section Top.
   Proof.
     intros Hk Hoc. unfold r in *. rewrite run_batch_eq in *. cbn [r_final r_err] in *. rewrite Hoc. cbn [end_scope].
     apply create_tx; auto.
+  Qed.
+
+  Theorem success_no_temp_lk :
+    lookup tmp db = None -> r_err r = None -> eff_outcome sc (r_err r) = Commit ->
+    lookup tmp (r_final r) = None /\
+    exists T, lookup t (r_final r) = Some T /\ t_def T = nd /\ t_rows T = map (copy_row tr) (t_rows T0).
+  Proof.
+    unfold r. rewrite run_batch_eq. cbn [r_err r_final]. fold tmp. intros Hfresh He Hoc. rewrite Hoc. cbn [end_scope].
+    pose proof (fresh_neq Hfresh) as E.
+    apply (create_success k pre db t tmp nd tr ixs f T0 HT0 E (neq_both E)); auto.
   Qed.
 End Top.
 
